@@ -24,6 +24,8 @@ def jobs():
         _JOBS = []
         from . import jobs_keyfile
         jobs_keyfile.register(_JOBS)
+        from . import jobs_rfwc
+        jobs_rfwc.register(_JOBS)
         names = [j.name for j in _JOBS]
         assert len(names) == len(set(names)), "duplicate job names"
     return _JOBS
@@ -60,3 +62,23 @@ prop("C10", "proof",
      "Trusted: the libc models used (they are instrumented by dfcc as well). Functions whose loops need an input "
      "bound are reported as bounded and not counted as discharged.",
      "CBMC assigns-clause (frame) checking with dfcc on all read-only API functions", "6 C10")
+prop("C06", "proof",
+     "The single choke point read_file_with_callback is under a CBMC contract (loop-free, every lstat result, "
+     "every flag state, callback absent/accepting/rejecting): the callback is called exactly once with the exact "
+     "path and data pointer before the parser, a rejection returns ECONF_PARSING_CALLBACK_FAILED without the "
+     "parser being entered, and the replaced parser's PRECONDITION (callback accepted this very path) is "
+     "discharged at its only call site. A call-graph fact recomputed each run shows the parser and fopen/getline "
+     "are reachable only through that function. The layered readers are under contract for forwarding the "
+     "caller's callback/data unchanged and for handing back nothing after a failure.",
+     "Trusted: the callback does not touch library state; file system behaves as the lstat/scandir stubs allow "
+     "(any POSIX result). Real directory contents are not explored.",
+     "CBMC function contracts (dfcc) with ghost call log; precondition of the replaced parser; call-graph fact",
+     "6 C06")
+prop("C16", "proof",
+     "read_file_with_callback under contract for every struct stat the lstat stub can return and every "
+     "combination of the owner/group/symlink/permission flags: each restriction in force yields its specific "
+     "code before the callback and the parser are reached, a conforming file proceeds; the replaced parser "
+     "requires 'gate passed' at its only call site. The five setter/reset functions are under contract for their "
+     "exact post-state. Call-graph fact: no other path into the parser.",
+     "Trusted: lstat reports the truth about the file; the kernel's notion of owner/group/symlink.",
+     "CBMC function contracts (dfcc), loop-free, full-domain symbolic stat results", "6 C16")
